@@ -154,15 +154,17 @@ P("C10", namespaces=["C10"], level_text="Theorems C10.accepts_iff / ok_iff_diale
   suites=lambda tier: [S.JsonAnySuite(cfg=DEF), S.JsonAnySuite(cfg=CFG_ALL, n=6000 if tier == "quick" else 300000), S.JsonAnySuite(cfg=CFG_NOUNI, n=3000 if tier == "quick" else 100000)],
   partial=["Incomplete-vs-Invalid classification of refused texts"])
 
-P("C11", module="AJ.Props.C11All", extra=[("AJ.Props.C11", ["C11"]), ("AJ.Props.C11Full", ["C11"])],
+P("C11", module="AJ.Props.C11All", extra=[("AJ.Props.C11", ["C11"]), ("AJ.Props.C11Full", ["C11"]), ("AJ.Props.C11Mp", ["C11"])],
   level_text="Theorem C11.json_projection_all_inputs: for every configuration, nesting limit, filter and input on which the unfiltered run returns Ok, the filtered run returns Ok, the "
   "projection (lean/AJ/Spec/Filter.lean: recursive, `*` wildcard, first array element, false removes, null falls back to `*`) of the unfiltered document, and the same number of bytes consumed - "
   "repeated keys, dialect extensions and trailing bytes included; C11.skip_and_filter_simulate_parse: skipping a value leaves the reader in literally the same state as parsing it; "
-  "the filter `true` (and AllowAll) is the identity on every input, malformed included, for JSON and MessagePack; a value is never produced into an absent destination. Pairs (input, filter) are "
+  "C11.msgpack_projection_all_inputs: the same statement for deserializeMsgPack (members projected one by one, repeated keys kept, bin/ext as scalars), with msgpack_filter_simulates_parse for "
+  "any reader state and the commutation with the doubles-disabled narrowing; the filter `true` (and AllowAll) is the identity on every input, malformed included, for JSON and MessagePack; a value "
+  "is never produced into an absent destination. Pairs (input, filter) are "
   "run through the real library, compared with the model and with the projection of the unfiltered result computed independently; memory requested by both runs is compared.",
-  level_note="the MessagePack filter has the identity/top-level theorems and the correspondence, not the recursive projection theorem; the memory clause is checked on the implementation only",
+  level_note="the memory clause is checked on the implementation only (three measures from the allocator ledger); two known findings about it",
   suites=lambda tier: [S.FilterSuite(cfg=DEF)],
-  partial=["MessagePack recursive projection theorem", "memory clause"])
+  partial=["memory clause"])
 
 P("C12", level_text="Theorems: every integer literal in [-2^63, 2^64) with any number of leading zeros parses to exactly that integer and nothing else does; integers print digit-exact; "
   "print/parse round trip over the whole 64-bit range; no literal of any length reaches an out-of-range table index. Floating point, over exact rationals (C12.float_clauses, parse_double_error, "
@@ -175,12 +177,16 @@ P("C12", level_text="Theorems: every integer literal in [-2^63, 2^64) with any n
   suites=lambda tier: [S.NumSuite(cfg=DEF)],
   partial=["subnormal band of the parser", "print error bound"])
 
-P("C13", level_text="Theorems for every stored number and each of the eight integral widths: as<T>() is the exact value when it lies in T's range and 0 otherwise, never undefined "
+P("C13", module="AJ.Props.C13All", extra=[("AJ.Props.C13", ["C13"]), ("AJ.Props.C13Copy", ["C13"])],
+  level_text="Theorems for every stored number and each of the eight integral widths: as<T>() is the exact value when it lies in T's range and 0 otherwise, never undefined "
   "(the model's UB state is unreachable), the six highest_for constants (regenerated from the source) are the largest float/double not above T::max, is<T>() iff stored as an integer "
-  "that fits and then as<U>() agrees for every wider U; float<->double and integer->float conversions are exact / nearest. The model is compared with the library on every storage kind "
-  "x target over boundary and random values and numeric strings, under UBSan.",
-  level_note="copyArray bounds are exercised by the harness only",
-  suites=lambda tier: [S.ConvSuite(cfg=DEF)])
+  "that fits and then as<U>() agrees for every wider U; float<->double and integer->float conversions are exact / nearest. copyArray (model lean/AJ/Model/CA.lean): copy1_within / "
+  "copy1_count / copy1_content, copy2_within, copyStr_within / copyStr_terminated - the destination keeps its size, exactly min(lengths) cells are written with the converted elements, every "
+  "other cell is untouched, a string copy writes at most N-1 bytes and one terminator. The model is compared with the library on every storage kind x target over boundary and random values "
+  "and numeric strings, and on copyArray with every destination type, destination lengths around the array length, fixed-size, two-dimensional and string forms, in exactly-sized heap "
+  "blocks with guard patterns, under ASan+UBSan.",
+  level_note="writes outside the destination on the binary are observed by ASan and the guard pattern; the model has destinations of fixed length by construction",
+  suites=lambda tier: [S.ConvSuite(cfg=DEF), S.CopyArrSuite(cfg=DEF)])
 
 P("C15", level_text="Theorems for JSON (filtered and unfiltered) and MessagePack, any bytes, any limit: Ok implies nesting <= L; L+1 opening brackets/headers give TooDeep after exactly "
   "L+1 bytes, also inside discarded parts; raising the limit changes nothing unless the result was TooDeep (never otherwise). Stack use is compared between inputs of depth L+1 and 2000.",
@@ -242,9 +248,9 @@ P("C06", module="AJ.Props.C19", namespaces=["C06"], level_text="Theorems at the 
   "when the free list is empty and the last pool is full or absent, clear() releases exactly one block per pool plus the heap table and nothing else. On the instrumented allocator "
   "(ledger of live blocks, call log per document) histories and deserializations are compared call by call with the model; read-only operations must not call the allocator; "
   "the ledger must be empty after clear(); double release or release through another allocator aborts the harness.",
-  level_note="string-node reference counts are modelled (de-duplication, release at zero) and compared through the allocator log; the deserialization memory bound is checked on sampled inputs only",
+  level_note="string-node reference counts are modelled (de-duplication, release at zero) and compared through the allocator log; the deserialization memory bound (one maximum-size string + pool granularity + a linear function of the bytes consumed, total requested and peak held) is checked on the instrumented allocator for sampled and hostile inputs (huge announced lengths/counts, long strings, many tiny elements), not proved",
   suites=lambda tier: [S.HistSuite(cfg=G["default"]), S.HistSuite(cfg=G["tiny1"], nh=40 if tier == "quick" else 2000), S.FaultSuite(cfg=G["default"], nh=60 if tier == "quick" else 2000),
-                       S.MpDeSuite(cfg=DEF, n=600 if tier == "quick" else 50000), S.LimitSuite(cfg=G["len1"]), S.LimitSuite(cfg=G["id1"])],
+                       S.MpDeSuite(cfg=DEF, n=600 if tier == "quick" else 50000), S.DeserMemSuite(cfg=DEF), S.LimitSuite(cfg=G["len1"]), S.LimitSuite(cfg=G["id1"])],
   partial=["C06_dedup and C06_deser_bound as theorems"])
 
 P("C19", namespaces=["C19"], level_text="Theorems for every geometry with poolCap >= 1 and initPools >= 1, every operation sequence and failure oracle: slot identifiers never wrap, "
